@@ -55,15 +55,13 @@ macro_rules! api_table {
             use super::{Args, Entry, Out, Uses};
             use std::convert::TryFrom;
             use $krate::TwoFloat;
+            /// operands enter every build through the same public, checked constructor (words that
+            /// do not form a valid pair become NAN in all builds alike)
             fn t(w: (f64, f64)) -> TwoFloat {
-                $krate::verif_hooks::raw(w.0, w.1)
+                TwoFloat::try_from(w).unwrap_or(TwoFloat::NAN)
             }
             fn o(x: TwoFloat) -> Out {
                 vec![(x.hi(), x.lo())]
-            }
-            pub const BACKEND: &str = $krate::verif_hooks::FMA_BACKEND;
-            pub fn fma(x: f64, y: f64, z: f64) -> f64 {
-                $krate::verif_hooks::fma(x, y, z)
             }
             pub fn table() -> Vec<Entry> {
                 use $krate::consts as k;
@@ -191,5 +189,21 @@ macro_rules! api_table {
     };
 }
 
+// the crate exactly as users build it (default features, no verif_hooks)
 api_table!(std_build, twofloat);
+// the same source with default features + verif_hooks (hooks-neutrality differential)
+api_table!(hooked_build, tf_hooked);
+// the same source with default-features = false, features = [math_funcs, verif_hooks]
 api_table!(nostd_build, tf_nostd);
+
+/// the cfg-selected internal fma of the two instrumented builds
+pub mod fma_hooks {
+    pub const STD_BACKEND: &str = tf_hooked::verif_hooks::FMA_BACKEND;
+    pub const NOSTD_BACKEND: &str = tf_nostd::verif_hooks::FMA_BACKEND;
+    pub fn std_fma(x: f64, y: f64, z: f64) -> f64 {
+        tf_hooked::verif_hooks::fma(x, y, z)
+    }
+    pub fn nostd_fma(x: f64, y: f64, z: f64) -> f64 {
+        tf_nostd::verif_hooks::fma(x, y, z)
+    }
+}
